@@ -214,6 +214,15 @@ def main_(seed, nscen):
                         report["problems"].append(dict(where, kind="unpublished_bytes", what="read returned %d bytes that no writer published (starts %r)" % (len(got), got[:24])))
                         return
                 else:
+                    # known finding D32: a share of the newest version whose (unsigned) offset table was hit shadows the intact ones when k = 1
+                    def in_offset_table(what):
+                        if "@" not in what or not what.startswith("flip"):
+                            return False
+                        at = int(what.split("@")[1])
+                        return (59 <= at < 123) if fmt == MDMF_VERSION else (75 <= at < 107)
+                    if k == 1 and len(t.get(newest, ())) >= k and got.check(NotEnoughSharesError, UnrecoverableFileError) and any(in_offset_table(f[0]) for f in fate.values()):
+                        report["problems"].append(dict(where, kind="read_failed_unsigned_offsets", what="read failed (%s) with k=1 although %d intact newest shares are reachable: a share with a damaged offset table shadows them (known finding D32)" % (got.type.__name__, len(t[newest]))))
+                        continue
                     if len(t.get(newest, ())) >= k and not any(f[0] != "intact" or f[1] != newest for f in fate.values() if f[0] not in ("deleted",)):
                         report["problems"].append(dict(where, kind="read_failed", what="read failed (%s) although only intact newest shares (%d distinct >= k) are on the servers" % (got.type.__name__, len(t[newest]))))
                         return
@@ -489,7 +498,8 @@ KINDS = {
 def grid_check(rep, tier, prop):
     from contracts import scenario_runner
     kinds, name = KINDS[prop]
-    scenario_runner.run(rep, tier, prop, "grid_mutable", kinds, name, BOUND, ("scenarios", "reads", "checks", "repairs", "publishes"), quick=(8, 12), thorough=(16, 250), contract="MutableScenarios")
+    scenario_runner.run(rep, tier, prop, "grid_mutable", kinds, name, BOUND, ("scenarios", "reads", "checks", "repairs", "publishes"), quick=(8, 12), thorough=(16, 250), contract="MutableScenarios",
+                        known_kinds=({"read_failed_unsigned_offsets": "D32"} if prop == "C10" else None))
 
 
 if __name__ == "__main__":
